@@ -737,6 +737,77 @@ def _py_source(names):
 
 
 
+# ---- culture lookups by name: spelling variants in every order -------------------------------------------------------------
+
+def _culture_name_histories(depth):
+    """CultureInfo(name) / CultureInfo.get_culture_info(name) for spelling variants of a few names (the caches are keyed by
+    the lower-cased name): every history up to the depth, both process-wide caches emptied before each history; the answer
+    (name, month names, long date pattern) must equal the answer to the same question asked first"""
+    from pyoda_time._compatibility._culture_data import _CultureData
+    from pyoda_time._compatibility._culture_info import CultureInfo
+    acc = Acc()
+    names = ["cs-CZ", "Cs-CZ", "CS-CZ", "en-US", "EN-us", "fr-FR", "Fr-fr", "ca-ES", "Ca-ES", "C", "zh-Hans", "ZH-hans"]
+    ops = [(k, n) for n in names for k in ("ctor", "get")]
+
+    def reset():
+        ok = True
+        try:
+            _CultureData._CultureData__s_cachedCultures = None
+        except Exception:  # noqa: BLE001
+            ok = False
+        try:
+            CultureInfo._CultureInfo__CACHED_CULTURES_BY_NAME.clear()
+        except Exception:  # noqa: BLE001
+            ok = False
+        return ok
+
+    def ask(op):
+        kind, n = op
+        try:
+            c = CultureInfo(n) if kind == "ctor" else CultureInfo.get_culture_info(n)
+            dtf = c.date_time_format
+            return ("ok", c.name, tuple(dtf.month_names[:3]), dtf.long_date_pattern)
+        except Exception as e:  # noqa: BLE001
+            if exc_origin(e) == "harness":
+                raise
+            return ("raises", type(e).__name__)
+    saved_data = getattr(_CultureData, "_CultureData__s_cachedCultures", None)
+    saved_info = dict(getattr(CultureInfo, "_CultureInfo__CACHED_CULTURES_BY_NAME", {}))
+    if not reset():
+        acc.degrade("culture caches not reachable: culture-name histories not run")
+        return acc
+    fresh = {}
+    for op in ops:
+        reset()
+        fresh[op] = ask(op)
+    n = 0
+    try:
+        for d in range(2, depth + 1):
+            for hist in itertools.product(ops, repeat=d):
+                reset()
+                n += 1
+                acc.count(evaluations=1)
+                for i, op in enumerate(hist):
+                    acc.count(transitions=1)
+                    got = ask(op)
+                    if got != fresh[op]:
+                        acc.violation("C13/culture-names/history-dependent/%s:%s" % op,
+                                      "after %r, %s(%r) answers %r; asked first it answers %r" % (list(hist[:i]), op[0], op[1], got, fresh[op]),
+                                      {"kind": "culture-names", "history": [list(h) for h in hist[:i + 1]]})
+                        break
+    finally:
+        _CultureData._CultureData__s_cachedCultures = saved_data
+        CultureInfo._CultureInfo__CACHED_CULTURES_BY_NAME.clear()
+        CultureInfo._CultureInfo__CACHED_CULTURES_BY_NAME.update(saved_info)
+    acc.count(states=n, nontrivial=n)
+    acc.outcome("culture-names:%d questions" % len(ops))
+    for op in ops:
+        acc.outcome("culture-names fresh %s(%s) => %s" % (op[0], op[1], fresh[op][1] if fresh[op][0] == "ok" else fresh[op]))
+    acc.sample({"culture_name_alphabet": [list(o) for o in ops], "depth": depth})
+    return acc
+
+
+
 def _calendar_routes():
     routes = []
     for cid in CalendarSystem.ids:
@@ -1551,6 +1622,7 @@ def run(ctx):
     ctx.merge_part("hist_provider", _provider_histories(3 if tier == "quick" else 4))
     ctx.merge_part("hist_provider_custom_source", _provider_histories_custom(3 if tier == "quick" else 4))
     ctx.merge_part("hist_fixed_zones", _fixed_zone_histories(2 if tier == "quick" else 3))
+    ctx.merge_part("hist_culture_names", _culture_name_histories(2 if tier == "quick" else 3))
     nops = len(_source_alphabet())
     for acc in pmap(_source_histories, [(k, 2 if tier == "quick" else 3) for k in range(nops)]):
         ctx.merge_part("hist_tzdb_source", acc)
